@@ -447,7 +447,8 @@ def run(chk):
     })
     chk.assumptions += ["a failure injected by the step budget (an exception out of scon::get) stands for any exception an upstream operator can raise at that point",
                         "ASan cannot see intra-object overflows or reuse after quarantine; memcheck (thorough) covers uninitialised reads on a subset"]
-    if tot.get("abandon_runs", 0) < 1000 or tot.get("leakchecks", 0) < 10 or not hs.get("fuel_exhausted"):
+    # (decided on the jobs' own counters: the hook statistics above are those of each worker's LAST driver process only)
+    if tot.get("abandon_runs", 0) < 1000 or tot.get("leakchecks", 0) < 10 or tot.get("fuel_runs", 0) < 100:
         chk.inconc("too few events")
 
 
